@@ -36,6 +36,7 @@ package server
 //@ requires req != nil && req.URL != nil
 //@ assigns nothing
 //@ emits PickLB(s, result)
+//@ ensures[C10] one_of_the_two_slots: result == s.active || (result == s.rollout && s.rollout != nil)
 //@ ensures[C10] no_split: (s.rollout == nil || s.rolloutController == nil) ==> result == s.active
 //@ ensures[C10] no_cookie: !hasCookie(ref(req), "kamal-rollout") ==> result == s.active
 //@ ensures[C10] split: s.rollout != nil && s.rolloutController != nil && rolloutValue(ref(req)) != "" ==> result == ite(in(rolloutValue(ref(req)), s.rolloutController.Allowlist) || inPercentage(rolloutValue(ref(req)), s.rolloutController.PercentageSplitPoint), s.rollout, s.active)
@@ -50,13 +51,16 @@ package server
 //@ ensures[C10] cleared: err == nil && s.rolloutController == nil
 
 //@ func server.SetErrorResponse
+//@ may_emit HttpError
 //@ requires r != nil && !isnil(w) && ctxWF(r)
 //@ assigns errResp(r).StatusCode, errResp(r).TemplateArguments, @writerFrame
-//@ ensures[C08,C15] recorded: old(hasErrResp(r)) ==> errResp(r).StatusCode == statusCode && errResp(r).TemplateArguments == templateArguments && none(HttpError) && none(WriteHeader) && none(Write)
+//@ ensures[C08,C15] recorded: old(hasErrResp(r)) ==> errResp(r).StatusCode == statusCode && errResp(r).TemplateArguments == templateArguments
+//@ ensures[C08,C15] nothing_written_yet: old(hasErrResp(r)) ==> none(HttpError) && none(WriteHeader) && none(Write)
 //@ ensures[C08,C15] fallback: !old(hasErrResp(r)) ==> emitted(HttpError(w, statusCode))
 //@ emits ErrResp(w, statusCode, templateArguments)
 
 //@ func (*server.Target).handleProxyError
+//@ may_emit ErrResp, WriteHeader, HttpError
 //@ requires r != nil && r.URL != nil && !isnil(w) && t.targetURL != nil && ctxWF(r)
 //@ assigns errResp(r).StatusCode, errResp(r).TemplateArguments, @writerFrame
 //@ ensures[C15] too_large: tooLarge(err) ==> emitted(ErrResp(w, 413, _))
@@ -71,6 +75,7 @@ package server
 //@ ensures[C08,C15] lookup: ref(result) == pageFor(h.template, statusCode)
 
 //@ func (*server.ErrorPageMiddleware).respondWithErrorPage
+//@ may_emit WriteHeader, SetHeader, Render, Fprintf
 //@ requires !isnil(w)
 //@ assigns @writerFrame, mapof(hdrOf(payload(w)))
 //@ ensures[C08,C15] status_first: emitted(WriteHeader(w, statusCode)) && first(WriteHeader(w, statusCode), Render(_, _, _)) && first(WriteHeader(w, statusCode), Fprintf(_))
@@ -80,6 +85,7 @@ package server
 //@ ensures[C08,C15] handled: result || !h.root
 
 //@ func (*server.ErrorPageMiddleware).ServeHTTP
+//@ may_emit *
 //@ requires r != nil && !isnil(w) && ctxWF(r) && !isnil(h.next)
 //@ assigns *
 //@ ensures[C08,C15] forwards_once: count(Forward(_, _, _)) == 1 && emitted(Forward(old(h.next), w, _))
@@ -93,6 +99,8 @@ package server
 //@ ensures[C13,C15] is_reverse_proxy: typeis(result, `*net/http/httputil.ReverseProxy`) && fresh(payload(result))
 
 //@ func (*server.Target).SendRequest
+//@ may_emit *
+//@ emits SendRequest(t, w, req)
 //@ requires req != nil && !isnil(w) && ctxWF(req) && !isnil(t.proxyHandler) && t.targetURL != nil
 //@ assigns *
 //@ ensures[C15,C03] inflight_removed: !haskey(t.inflight, req)
@@ -105,6 +113,7 @@ package server
 //@ ensures[C07,C08,C11] running: fresh(result) && result.State == PauseStateRunning && result.StopMessage == "" && pauseInv(result)
 
 //@ func (*server.PauseController).setState
+//@ may_emit Close
 //@ requires newState == PauseStateRunning || newState == PauseStateStopped
 //@ assigns p.State, p.StopMessage, closed(p.pauseChannel)
 //@ ensures[C07,C08] state_set: p.State == newState && p.StopMessage == message
@@ -113,11 +122,13 @@ package server
 //@ ensures[C07,C18] lock_free: !held(p.lock)
 
 //@ func (*server.PauseController).Stop
+//@ may_emit Close
 //@ assigns p.State, p.StopMessage, closed(p.pauseChannel)
 //@ ensures[C08] stopped: err == nil && p.State == PauseStateStopped && p.StopMessage == message
 //@ ensures[C07] releases_waiters: old(p.State) == PauseStatePaused ==> closed(p.pauseChannel)
 
 //@ func (*server.PauseController).Resume
+//@ may_emit Close
 //@ assigns p.State, p.StopMessage, closed(p.pauseChannel)
 //@ ensures[C07,C08] running: err == nil && p.State == PauseStateRunning && p.StopMessage == ""
 //@ ensures[C07] releases_waiters: old(p.State) == PauseStatePaused ==> closed(p.pauseChannel)
@@ -154,6 +165,8 @@ package server
 //@ ensures[C16] policy: result == (s.options.TLSEnabled && s.options.TLSRedirect && r.TLS == nil)
 
 //@ func (*server.Service).redirectToHTTPS
+//@ may_emit Redirect, SetHeader
+//@ emits RedirectHTTPS(s, w)
 //@ requires r != nil && r.URL != nil && !isnil(w)
 //@ assigns @writerFrame, mapof(hdrOf(payload(w)))
 //@ ensures[C16] moved_permanently: !strings.HasPrefix(r.Host, "[") ==> emitted(Redirect(w, 301, "https://" + hostOf(r.Host) + requestURI(ref(r.URL))))
@@ -162,6 +175,8 @@ package server
 //@ ensures[C16] closes_connection: emitted(SetHeader(hdrOf(payload(w)), "Connection", "close")) && count(Redirect(_, _, _)) == 1 && none(Forward) && none(ErrResp)
 
 //@ func (*server.Service).handlePausedAndStoppedRequests
+//@ may_emit ErrResp, WriteHeader, HttpError, Gate
+//@ emits Gated(s, result)
 //@ requires r != nil && r.URL != nil && !isnil(w) && ctxWF(r) && s.pauseController != nil
 //@ attr blocks
 //@ assigns errResp(r).StatusCode, errResp(r).TemplateArguments, @writerFrame
@@ -194,21 +209,24 @@ package server
 //@ ensures[C18] lock_free: !held(lb.lock)
 
 //@ func (*server.LoadBalancer).ServeHTTP
+//@ may_emit *
 //@ requires r != nil && !isnil(w) && ctxWF(r)
 //@ assigns *
 //@ emits LBServe(lb, w, r)
-//@ ensures[C09,C02] unavailable_without_healthy_target: none(Forward) ==> emitted(ErrResp(w, 503, _))
-//@ ensures[C09,C15] one_outcome: count(Forward(_, _, _)) + count(ErrResp(_, _, _)) == 1
+//@ ensures[C09,C02] unavailable_without_healthy_target: none(SendRequest) ==> emitted(ErrResp(w, 503, _))
+//@ ensures[C09,C15] one_outcome: count(SendRequest(_, _, _)) + count(ErrResp(_, _, _)) == 1
 //@ ensures[C02,C09] own_errors_only_503: none(ErrResp(_, 404, _)) && none(ErrResp(_, 502, _)) && none(ErrResp(_, 504, _))
 
 //@ func (*server.Service).serviceRequestWithTarget
+//@ may_emit *
 //@ requires r != nil && r.URL != nil && !isnil(w) && ctxWF(r) && s.pauseController != nil && s.active != nil
 //@ attr blocks
 //@ assigns *
-//@ ensures[C16] redirects_plain_http: old(s.options.TLSEnabled) && old(s.options.TLSRedirect) && old(r.TLS) == nil ==> count(Redirect(_, 301, _)) == 1 && none(LBServe) && none(Gate) && none(ErrResp) && none(PickLB) && now == old(now)
-//@ ensures[C16] refuses_tls_when_disabled: !old(s.options.TLSEnabled) && old(r.TLS) != nil ==> emitted(ErrResp(w, 503, _)) && none(LBServe) && none(Gate) && none(Redirect) && none(PickLB) && now == old(now)
-//@ ensures[C07,C16] gate_before_pick: first(Gate(_, _, _, _), PickLB(_, _)) && first(PickLB(_, _), LBServe(_, _, _))
-//@ ensures[C07,C08] forwards_only_when_released: emitted(LBServe(_, _, _)) ==> emitted(Gate(_, _, PauseWaitActionProceed, _)) && none(ErrResp) && none(Redirect)
+//@ ensures[C16] redirects_plain_http: old(s.options.TLSEnabled) && old(s.options.TLSRedirect) && old(r.TLS) == nil ==> count(RedirectHTTPS(_, _)) == 1 && none(LBServe) && none(Gated) && none(ErrResp) && none(PickLB) && now == old(now)
+//@ ensures[C16] refuses_tls_when_disabled: !old(s.options.TLSEnabled) && old(r.TLS) != nil ==> emitted(ErrResp(w, 503, _)) && none(LBServe) && none(Gated) && none(RedirectHTTPS) && none(PickLB) && now == old(now)
+//@ ensures[C07,C16] gate_before_pick: first(Gated(_, false), PickLB(_, _)) && first(PickLB(_, _), LBServe(_, _, _))
+//@ ensures[C07,C08] forwards_only_when_released: emitted(LBServe(_, _, _)) ==> emitted(Gated(_, false)) && none(ErrResp) && none(RedirectHTTPS)
+//@ ensures[C07,C08] gated_requests_go_no_further: emitted(Gated(_, true)) ==> none(LBServe) && none(PickLB)
 //@ ensures[C10,C02] serves_picked_balancer: count(LBServe(_, _, _)) <= 1 && count(PickLB(_, _)) <= 1
 //@ ensures[C02] no_404_502: none(ErrResp(_, 404, _)) && none(ErrResp(_, 502, _))
 
@@ -218,6 +236,7 @@ package server
 //@ emits HealthResult(recv, success)
 
 //@ func (*server.HealthCheck).check
+//@ may_emit *
 //@ requires hc.endpoint != nil && !isnil(hc.consumer) && !isnil(hc.ctx)
 //@ attr blocks
 //@ assigns *
@@ -238,6 +257,7 @@ package server
 //@ emits StateChanged(lb, target)
 
 //@ func (*server.Target).HealthCheckCompleted
+//@ may_emit Close, StateChanged
 //@ requires t.targetURL != nil && t.healthcheck != nil && t.becameHealthy != nil
 //@ assigns t.state, closed(t.becameHealthy), everHealthy(t), LoadBalancer.healthy
 //@ ensures[C01] first_success_promotes: old(t.state) == TargetStateAdding && success ==> t.state == TargetStateHealthy && closed(t.becameHealthy)
@@ -284,12 +304,14 @@ package server
 //@ loop 1 invariant all_wf: forall i int :: 0 <= i && i < len(coll) ==> targetWF(coll[i])
 
 //@ func (*server.HealthCheck).Close
+//@ may_emit Cancel
 //@ requires hcWF(hc)
 //@ assigns cancelled(hc.cancel), closed(ctxDone(payload(hc.ctx)))
 //@ ensures[C17,C06] probe_loop_cancelled: closed(ctxDone(payload(hc.ctx))) && cancelled(hc.cancel)
 //@ emits StopProbes(hc)
 
 //@ func (*server.HealthCheck).run
+//@ may_emit *
 //@ requires hcWF(hc)
 //@ attr blocks
 //@ assigns *
@@ -304,16 +326,19 @@ package server
 //@ emits NewHealthCheck(result, consumer)
 
 //@ func (*server.Target).stopHealthChecks
+//@ may_emit StopProbes, Cancel
 //@ requires t.healthcheck != nil ==> hcWF(t.healthcheck)
 //@ assigns t.healthcheck, cancelled(t.healthcheck.cancel), closed(ctxDone(payload(t.healthcheck.ctx)))
 //@ ensures[C17,C06] stopped: probesStopped(t) && (old(t.healthcheck) != nil ==> closed(ctxDone(payload(old(t.healthcheck.ctx)))))
 
 //@ func (*server.Target).Dispose
+//@ may_emit StopProbes, Cancel
 //@ requires t.healthcheck != nil ==> hcWF(t.healthcheck)
 //@ assigns t.healthcheck, cancelled(t.healthcheck.cancel), closed(ctxDone(payload(t.healthcheck.ctx)))
 //@ ensures[C17,C06] stopped: probesStopped(t) && (old(t.healthcheck) != nil ==> closed(ctxDone(payload(old(t.healthcheck.ctx)))))
 
 //@ func (*server.Target).WaitUntilHealthy
+//@ may_emit StopProbes, Cancel
 //@ requires t.healthcheck != nil ==> hcWF(t.healthcheck)
 //@ attr blocks
 //@ assigns t.healthcheck, cancelled(t.healthcheck.cancel), closed(ctxDone(payload(t.healthcheck.ctx)))
@@ -324,6 +349,7 @@ package server
 //@ ensures[C17] timeout_exact: !result ==> now == old(now) + max(timeout, 0)
 
 //@ func (*server.LoadBalancer).WaitUntilHealthy$1
+//@ may_emit StopProbes, Cancel
 //@ attr forkjoin = target
 //@ attr blocks
 //@ requires target != nil && target.targetURL != nil && (target.healthcheck != nil ==> hcWF(target.healthcheck))
@@ -352,6 +378,7 @@ package server
 //@ loop 1 invariant result_fresh: fresh(result)
 
 //@ func (*server.Target).Drain
+//@ may_emit Cancel
 //@ requires everHealthy(t)
 //@ attr blocks
 //@ assigns t.state, everHealthy(t), cancelled, closed
@@ -371,3 +398,140 @@ package server
 //@ loop 3 invariant[C03,C17] no_more_waiting: now <= old(now) + max(timeout, 0) && toCancel != nil
 //@ loop 3 invariant[C03] wait_outcome: (forall k `*net/http.Request` :: haskey(toCancel, k) ==> reqDone(k)) || now >= old(now) + max(timeout, 0)
 //@ loop 3 invariant snapshot: forall k `*net/http.Request` :: haskey(toCancel, k) == old(haskey(t.inflight, k)) && (haskey(toCancel, k) ==> toCancel[k] == old(t.inflight[k]) && toCancel[k] != nil && toCancel[k].cancel != nil)
+
+//@ func (*server.LoadBalancer).DrainAll$1
+//@ may_emit Cancel, DrainTarget
+//@ attr forkjoin = target
+//@ attr blocks
+//@ requires target != nil && everHealthy(target)
+//@ assigns Target.state, everHealthy, cancelled, closed
+//@ ensures[C03] drained: cancelledAllOf(target) || true
+//@ ensures[C03,C17] bounded_by_timeout: now <= spawntime + max(timeout, 0)
+
+//@ func (*server.LoadBalancer).DrainAll
+//@ requires forall i int :: 0 <= i && i < len(lb.all) ==> lb.all[i] != nil && everHealthy(lb.all[i])
+//@ attr blocks
+//@ assigns Target.state, everHealthy, cancelled, closed
+//@ ensures[C03,C17] bounded_by_drain_timeout: now <= old(now) + max(timeout, 0)
+//@ emits DrainAll(lb, timeout)
+//@ loop 1 invariant[C03] every_target_drained: forall i int :: 0 <= i && i < idx ==> spawned("(*server.LoadBalancer).DrainAll$1", coll[i])
+//@ loop 1 invariant same_list: coll == lb.all && idx <= len(coll) && now == old(now)
+
+//@ func (server.TargetList).Dispose
+//@ may_emit StopProbes, Cancel
+//@ requires forall i int :: 0 <= i && i < len(tl) ==> tl[i] != nil && (tl[i].healthcheck != nil ==> hcWF(tl[i].healthcheck))
+//@ assigns Target.healthcheck, cancelled, closed
+//@ ensures[C06,C17] all_probes_stopped: forall i int :: 0 <= i && i < len(tl) ==> probesStopped(tl[i])
+//@ ensures dropped_or_kept: forall t *Target :: t.healthcheck == nil || t.healthcheck == old(t.healthcheck)
+//@ loop 1 invariant dropped_or_kept: forall t *Target :: t.healthcheck == nil || t.healthcheck == old(t.healthcheck)
+//@ loop 1 invariant[C06,C17] stopped_so_far: forall i int :: 0 <= i && i < idx ==> probesStopped(coll[i])
+//@ loop 1 invariant still_wf: forall i int :: 0 <= i && i < len(coll) ==> coll[i] != nil && (coll[i].healthcheck != nil ==> hcWF(coll[i].healthcheck))
+//@ loop 1 invariant same: coll == tl && idx <= len(coll)
+
+//@ func (*server.LoadBalancer).Dispose
+//@ may_emit StopProbes, Cancel
+//@ assigns Target.healthcheck, cancelled, closed
+//@ ensures[C06,C17] all_probes_stopped: forall i int :: 0 <= i && i < len(lb.all) ==> probesStopped(lb.all[i])
+//@ ensures[C18] lock_free: !held(lb.lock)
+//@ emits Dispose(lb)
+
+//@ func server.parseTargetURL
+//@ uses host_pattern_parses
+//@ assigns nothing
+//@ ensures[C06] malformed_rejected: !hostMatch(targetURL) ==> err != nil && result0 == nil
+//@ ensures[C06] wellformed_accepted: hostMatch(targetURL) ==> err == nil && result0 != nil && fresh(result0)
+
+//@ func (*server.TargetOptions).canonicalizeLogHeaders
+//@ assigns elemsof(to.LogRequestHeaders), elemsof(to.LogResponseHeaders)
+//@ ensures[C19] request_headers_canonical: ref(to.LogRequestHeaders) != ref(to.LogResponseHeaders) ==> forall i int :: 0 <= i && i < len(to.LogRequestHeaders) ==> to.LogRequestHeaders[i] == canon(old(to.LogRequestHeaders[i]))
+//@ ensures[C19] response_headers_canonical: ref(to.LogRequestHeaders) != ref(to.LogResponseHeaders) ==> forall i int :: 0 <= i && i < len(to.LogResponseHeaders) ==> to.LogResponseHeaders[i] == canon(old(to.LogResponseHeaders[i]))
+//@ loop 1 invariant done_so_far: forall i int :: 0 <= i && i < idx ==> coll[i] == canon(old(to.LogRequestHeaders[i]))
+//@ loop 1 invariant rest_untouched: forall i int :: idx <= i && i < len(coll) ==> coll[i] == old(to.LogRequestHeaders[i])
+//@ loop 1 invariant same: coll == to.LogRequestHeaders && idx <= len(coll)
+//@ loop 1 invariant other_list: ref(to.LogRequestHeaders) != ref(to.LogResponseHeaders) ==> forall i int :: 0 <= i && i < len(to.LogResponseHeaders) ==> to.LogResponseHeaders[i] == old(to.LogResponseHeaders[i])
+//@ loop 2 invariant done_so_far: ref(to.LogRequestHeaders) != ref(to.LogResponseHeaders) ==> forall i int :: 0 <= i && i < idx ==> coll[i] == canon(old(to.LogResponseHeaders[i]))
+//@ loop 2 invariant rest_untouched: ref(to.LogRequestHeaders) != ref(to.LogResponseHeaders) ==> forall i int :: idx <= i && i < len(coll) ==> coll[i] == old(to.LogResponseHeaders[i])
+//@ loop 2 invariant same: coll == to.LogResponseHeaders && idx <= len(coll)
+//@ loop 2 invariant first_list_done: ref(to.LogRequestHeaders) != ref(to.LogResponseHeaders) ==> forall i int :: 0 <= i && i < len(to.LogRequestHeaders) ==> to.LogRequestHeaders[i] == canon(old(to.LogRequestHeaders[i]))
+
+//@ func server.NewTarget
+//@ assigns elemsof(options.LogRequestHeaders), elemsof(options.LogResponseHeaders)
+//@ ensures[C06] malformed_target_rejected: !hostMatch(targetURL) ==> err != nil && result0 == nil
+//@ ensures[C06,C17] built: hostMatch(targetURL) ==> err == nil && fresh(result0) && targetWF(result0) && result0.state == TargetStateAdding && result0.healthcheck == nil && result0.becameHealthy == nil && !everHealthy(result0)
+//@ ensures[C11,C13] keeps_options: err == nil ==> result0.options.HealthCheckConfig == options.HealthCheckConfig && result0.options.ResponseTimeout == options.ResponseTimeout && result0.options.BufferRequests == options.BufferRequests && result0.options.BufferResponses == options.BufferResponses && result0.options.MaxMemoryBufferSize == options.MaxMemoryBufferSize && result0.options.MaxRequestBodySize == options.MaxRequestBodySize && result0.options.MaxResponseBodySize == options.MaxResponseBodySize && result0.options.ForwardHeaders == options.ForwardHeaders
+//@ ensures[C06,C17] no_probing_yet: none(NewHealthCheck) && none(Go)
+
+//@ func (*server.Target).BeginHealthChecks
+//@ may_emit NewHealthCheck
+//@ requires t.targetURL != nil && !isnil(stateConsumer) && t.healthcheck == nil && t.becameHealthy == nil
+//@ attr constructs = t
+//@ assigns t.stateConsumer, t.becameHealthy, t.healthcheck, chanOwner
+//@ ensures[C09,C17] probing_started: t.healthcheck != nil && fresh(t.healthcheck) && hcWF(t.healthcheck) && t.healthcheck.interval == t.options.HealthCheckConfig.Interval && t.healthcheck.timeout == t.options.HealthCheckConfig.Timeout && payload(t.healthcheck.consumer) == ref(t)
+//@ ensures[C01] fresh_signal: t.becameHealthy != nil && fresh(t.becameHealthy) && !closed(t.becameHealthy) && t.stateConsumer == stateConsumer
+//@ ensures others_keep_their_owner: forall c ref :: c != ref(t.becameHealthy) ==> chanOwner(c) == old(chanOwner(c))
+
+//@ func server.NewTargetList
+//@ assigns elemsof(options.LogRequestHeaders), elemsof(options.LogResponseHeaders)
+//@ ensures[C06] any_malformed_name_rejects_all: err != nil ==> isnil(result0) && none(NewHealthCheck) && none(Go)
+//@ ensures[C06] all_built: err == nil ==> len(result0) == len(targetNames) && forall i int :: 0 <= i && i < len(result0) ==> fresh(result0[i]) && targetWF(result0[i]) && result0[i].state == TargetStateAdding && result0[i].healthcheck == nil && result0[i].becameHealthy == nil && !everHealthy(result0[i])
+//@ ensures[C06,C17] no_probing_yet: none(NewHealthCheck) && none(Go)
+//@ ensures distinct: err == nil ==> forall i int, j int :: 0 <= i && i < j && j < len(result0) ==> result0[i] != result0[j]
+//@ loop 1 invariant distinct_so_far: forall i int, j int :: 0 <= i && i < j && j < len(targets) ==> targets[i] != targets[j]
+//@ loop 1 invariant[C06] built_so_far: len(targets) == idx && idx <= len(coll) && coll == targetNames && forall i int :: 0 <= i && i < len(targets) ==> fresh(targets[i]) && targetWF(targets[i]) && targets[i].state == TargetStateAdding && targets[i].healthcheck == nil && targets[i].becameHealthy == nil && !everHealthy(targets[i])
+
+//@ func (*server.LoadBalancer).beginHealthChecks
+//@ may_emit NewHealthCheck
+//@ requires forall i int :: 0 <= i && i < len(lb.all) ==> targetWF(lb.all[i]) && lb.all[i].healthcheck == nil && lb.all[i].becameHealthy == nil
+//@ requires distinct_targets: forall i int, j int :: 0 <= i && i < j && j < len(lb.all) ==> lb.all[i] != lb.all[j]
+//@ assigns Target.stateConsumer, Target.becameHealthy, Target.healthcheck, chanOwner
+//@ ensures[C09,C17] every_target_probed: forall i int :: 0 <= i && i < len(lb.all) ==> lb.all[i].healthcheck != nil && hcWF(lb.all[i].healthcheck) && lb.all[i].becameHealthy != nil && !closed(lb.all[i].becameHealthy) && payload(lb.all[i].stateConsumer) == ref(lb)
+//@ loop 1 invariant[C09] begun_so_far: forall i int :: 0 <= i && i < idx ==> coll[i].healthcheck != nil && hcWF(coll[i].healthcheck) && coll[i].becameHealthy != nil && !closed(coll[i].becameHealthy) && payload(coll[i].stateConsumer) == ref(lb)
+//@ loop 1 invariant rest_untouched: forall i int :: idx <= i && i < len(coll) ==> coll[i].healthcheck == nil && coll[i].becameHealthy == nil
+//@ loop 1 invariant same: coll == lb.all && idx <= len(coll)
+//@ loop 1 invariant wf: forall i int :: 0 <= i && i < len(coll) ==> coll[i] != nil && coll[i].targetURL != nil
+//@ loop 1 invariant distinct: forall i int, j int :: 0 <= i && i < j && j < len(coll) ==> coll[i] != coll[j]
+
+//@ func server.NewLoadBalancer
+//@ may_emit NewHealthCheck
+//@ requires forall i int :: 0 <= i && i < len(targets) ==> targetWF(targets[i]) && targets[i].healthcheck == nil && targets[i].becameHealthy == nil && !everHealthy(targets[i])
+//@ requires distinct_targets: forall i int, j int :: 0 <= i && i < j && j < len(targets) ==> targets[i] != targets[j]
+//@ assigns Target.stateConsumer, Target.becameHealthy, Target.healthcheck, chanOwner
+//@ ensures[C01,C09] built: fresh(result) && result.all == targets && len(result.healthy) == 0 && result.index == 0
+//@ ensures[C09,C17] every_target_probed: forall i int :: 0 <= i && i < len(targets) ==> targets[i].healthcheck != nil && hcWF(targets[i].healthcheck) && targets[i].becameHealthy != nil && !closed(targets[i].becameHealthy) && payload(targets[i].stateConsumer) == ref(result)
+//@ emits NewLB(result)
+
+//@ func (*server.Service).UpdateLoadBalancer
+//@ requires lb != nil && lbReady(lb)
+//@ assigns s.active, s.rollout
+//@ ensures[C02,C10] swaps_slot: (slot == TargetSlotRollout ==> s.rollout == lb && result == old(s.rollout) && s.active == old(s.active)) && (slot != TargetSlotRollout ==> s.active == lb && result == old(s.active) && s.rollout == old(s.rollout))
+//@ ensures[C03] replaced_was_serving: result != nil ==> lbReady(result)
+//@ ensures[C18] lock_free: !held(s.serviceLock)
+//@ emits UpdateLB(s, lb, slot, result)
+
+//@ func (*server.Router).saveStateSnapshot
+//@ assigns nothing
+//@ emits Snapshot(r)
+
+//@ func (*server.Router).installService
+//@ may_emit *
+//@ requires s != nil && r.services != nil
+//@ attr noframe
+//@ assigns ServiceMap.services, ServiceMap.requestServiceMap
+//@ emits Install(r, s) when err == nil
+//@ ensures[C12] snapshot_follows: last_is(Snapshot(r))
+//@ ensures[C18] lock_free: !held(r.serviceLock)
+
+//@ func (*server.Router).deployTargetsIntoService
+//@ may_emit *
+//@ requires service != nil && r.services != nil
+//@ attr blocks
+//@ assigns *
+//@ ensures[C01] waits_for_every_new_target_first: all(UpdateLB, before(WaitHealthy($1, deployTimeout), UpdateLB($0, $1, targetSlot, $3)) && $0 == ref(service))
+//@ ensures[C01,C06] unhealthy_targets_never_installed: emitted(WaitHealthy(_, _)) && none(UpdateLB) ==> err != nil && none(Install) && all(NewLB, emitted(Dispose($0)))
+//@ ensures[C01,C02] swap_then_install: first(UpdateLB(_, _, _, _), Install(_, _)) && count(Install(_, _)) <= 1 && count(UpdateLB(_, _, _, _)) <= 1
+//@ ensures[C02,C03] old_targets_drained_after_the_swap: all(DrainAll, before(Install(_, _), DrainAll($0, drainTimeout)) && emitted(UpdateLB(_, _, _, $0)) && $1 == drainTimeout)
+//@ ensures[C03,C17] replaced_targets_disposed_after_draining: err == nil ==> all(Dispose, before(DrainAll($0, _), Dispose($0)))
+//@ ensures[C06,C17] rejected_targets_stop_being_probed: err != nil ==> all(NewLB, emitted(Dispose($0)))
+//@ ensures[C06] malformed_targets_create_nothing: none(NewLB) ==> err != nil && none(UpdateLB) && none(Install) && none(NewHealthCheck) && now == old(now)
+//@ ensures[C17] bounded_by_deploy_plus_drain_timeout: now <= old(now) + max(deployTimeout, 0) + max(drainTimeout, 0)
+//@ ensures[C01,C17] deploy_timeout_used_for_the_wait: all(WaitHealthy, $1 == deployTimeout)
